@@ -235,6 +235,49 @@ def run(res, tier, build_ok):
                       lambda: cls(opx, **copy.deepcopy(kw)), exp, PLL["xcopy"],
                       {"command": "xcopy%d" % (5 if five else 4), "kwargs": str(kw)[:1200]},
                       "mar xcopy%d %s" % (5 if five else 4, formats.to_text(model)))
+        # ---- honest lengths for iSCSI TransportIDs of every name length (1..40), incl. the short ones the byte-for-byte
+        #      oracle above leaves out: whatever padding is chosen, every length field must equal what follows it
+        op = spc.PERSISTENT_RESERVE_OUT
+        for n in range(1, 41):
+            for fmt in (0, 1):
+                name = ("iqn.2001-04.a:" + "b" * 40)[:n]
+                tid = {"tpid_format": fmt, "protocol_id": 5, "iscsi_name": name}
+                if fmt:
+                    tid["iscsi_initiator_session_id"] = "0123456789ab"
+                for kindp, sa, kw in (("ram", op.serviceaction.REGISTER_AND_MOVE, {"transport_id": tid, "relative_target_port_id": 3}),
+                                      ("spec", op.serviceaction.REGISTER, {"spec_i_pt": 1, "transport_ids": [dict(tid), dict(tid)]})):
+                    res.case(("prout tid lengths", n, fmt, kindp), None)
+                    res.count("iSCSI TransportID name lengths x list kinds")
+                    replay = {"command": "prout", "list": kindp, "iscsi_name": name, "tpid_format": fmt}
+                    try:
+                        cmd = PRO(op, sa, scope=0, pr_type=1, reservation_key=1, service_action_reservation_key=2, **copy.deepcopy(kw))
+                    except Exception as e:
+                        res.violation("cmd=prout %s raises=%s" % (kindp, type(e).__name__),
+                                      "PERSISTENT RESERVE OUT (%s list) cannot be constructed with a %d-character iSCSI name: %s" % (kindp, n, type(e).__name__), replay)
+                        continue
+                    out = bytes(cmd.dataout)
+                    replay["dataout"] = out.hex()
+                    bad = None
+                    if int.from_bytes(bytes(cmd.cdb)[5:9], "big") != len(out):
+                        bad = "PARAMETER LIST LENGTH in the CDB is %d, the list has %d bytes" % (int.from_bytes(bytes(cmd.cdb)[5:9], "big"), len(out))
+                    hdr = 24 if kindp == "ram" else 28
+                    lenf = int.from_bytes(out[20:24] if kindp == "ram" else out[24:28], "big")
+                    if bad is None and lenf != len(out) - hdr:
+                        bad = "TRANSPORTID (PARAMETER DATA) LENGTH is %d, %d bytes follow" % (lenf, len(out) - hdr)
+                    pos = hdr
+                    ntid = 0
+                    while bad is None and pos < len(out):
+                        al = int.from_bytes(out[pos + 2:pos + 4], "big")
+                        body = out[pos + 4:pos + 4 + al]
+                        want = (name + (",i,0x0123456789ab" if fmt else "")).encode()
+                        if pos + 4 + al > len(out) or al % 4 or out[pos] != ((fmt << 6) | 5) or body[:len(want)] != want or any(body[len(want):]) or len(body) <= len(want):
+                            bad = "TransportID at byte %d: ADDITIONAL LENGTH %d does not delimit the null-terminated, null-padded name (%d bytes remain)" % (pos, al, len(out) - pos - 4)
+                        pos += 4 + al
+                        ntid += 1
+                    if bad is None and ntid != (1 if kindp == "ram" else 2):
+                        bad = "%d TransportIDs found by walking the length fields" % ntid
+                    if bad:
+                        res.violation("cmd=prout %s iscsi lengths" % kindp, "PERSISTENT RESERVE OUT (%s list), iSCSI name of %d characters: %s" % (kindp, n, bad), replay)
     finally:
         nreq = g.nreq
         g.close()
